@@ -24,7 +24,9 @@ FRONTS = ['decode_actisense_string', 'decode_yacht_devices_string', 'decode_basi
 
 def run(chk, program, tier):
     for r, t in (('FE-FUNNEL', 'one shared decode path'), ('FE-ROLE', 'parameter roles'), ('FE-ORIENT', 'data reversed exactly once'), ('FE-COMBINED', 'reassembly bypass only for whole-message formats'),
-                 ('ENDIAN', 'payload integer is little-endian over wire order'), ('ID-PARSE', 'identifier parse is the inverse of the layout (C05)'), ('ID-BUILD', 'identifier build/parse compose to identity (C05)'), ('STATE-DEPS', 'the shared decode path depends only on configuration, source map and reassembly buffers')):
+                 ('ENDIAN', 'payload integer is little-endian over wire order'), ('ID-PARSE', 'identifier parse is the inverse of the layout (C05)'), ('ID-BUILD', 'identifier build/parse compose to identity (C05)'), ('STATE-DEPS', 'the shared decode path depends only on configuration, source map and reassembly buffers'),
+                 ('RA-RESET', 'C04: restart resets the record'), ('RA-DONE', 'C04: completion / deletion'), ('RA-COUNT', 'C04: counting'), ('RA-ORDER', 'C04: order'), ('RA-TRUNC', 'C04: truncation'),
+                 ('RA-KEY', 'C04: stream key'), ('RA-SEQ', 'C04: sequence guard'), ('RA-DUP', 'C04: duplicate guard'), ('RA-PRE', 'C04: stray later frame')):
         chk.rule(r, t)
     funnel(chk, program)
     hexid = A.AStr([('hexbytes', list(reversed([A.norm_byte(W.ID_BITS[8 * i: 8 * i + 8] + [0] * max(0, 8 * i + 8 - 29)) for i in range(4)])))])
@@ -109,6 +111,9 @@ def run(chk, program, tier):
     # the shared path keeps no memory of *how* earlier messages arrived (C16 STATE-DEPS): otherwise a frame-level and a message-level format disagree
     from .. import rules_iso
     rules_iso.state_deps(_Sub(chk, {'STATE-DEPS'}), program)
+    # frame-by-frame delivery equals pre-assembled delivery only if reassembly is exact (C04's clauses)
+    from .. import rules_decoder as RD
+    RD.reassembly(_Sub(chk, {'RA-KEY', 'RA-SEQ', 'RA-DUP', 'RA-RESET', 'RA-PRE', 'RA-ORDER', 'RA-DONE', 'RA-COUNT', 'RA-TRUNC'}), program)
 
 def funnel(chk, program):
     m = program.mod('decoder')
